@@ -162,3 +162,17 @@ Proof.
   pose proof (dec_enc s l o Hs Hl) as D1. pose proof (dec_enc s' l' o' Hs' Hl') as D2.
   rewrite H in D1. rewrite D1 in D2. inversion D2. auto.
 Qed.
+
+(** the literals of the model are the constants of the build under test (Gen/Tables.v, regenerated on every run):
+    wsize, dwsize, the masks derived from them, the three constant cells, and encodeValues / decodeValues on the
+    dumped sample points *)
+From OBI.C09.Gen Require Import Tables.
+Definition enc_sample_ok (e : N * N * bool * N) : bool := let '(s, l, o, w) := e in enc s l o =? w.
+Definition dec_sample_ok (e : N * (N * N * bool)) : bool :=
+  let '(w, (s, l, o)) := e in let '(s', l', o') := dec w in (s' =? s) && (l' =? l) && Bool.eqb o' o.
+Lemma pack_consts :
+  wsize_gen = 16 /\ dwsize_gen = 32 /\ mask16 = 2 ^ wsize_gen - 1 /\ outbit = 2 ^ dwsize_gen /\
+  65536 = 2 ^ wsize_gen /\ W64 - 1 - outbit = N.lxor (W64 - 1) (2 ^ dwsize_gen) /\
+  c_empty = empty_gen /\ c_out = out_gen /\ c_notavail = notavail_gen /\
+  forallb enc_sample_ok enc_samples = true /\ forallb dec_sample_ok dec_samples = true.
+Proof. vm_compute. repeat split; reflexivity. Qed.
